@@ -73,6 +73,15 @@ def _post(ctx):
                 strs = json.load(open(sp))
             names = lambda txt: [strs[int(x)] if int(x) < len(strs) else x for x in re.findall(r"\d+", txt)]
             detail = dict(file="coq/gen/" + fname)
+            m = re.search(r'line (\d+), characters', out)
+            if m:
+                lines = open(os.path.join(vlib.GEN, fname)).read().split("\n")
+                ln = int(m.group(1))
+                for k in range(min(ln, len(lines)) - 1, -1, -1):
+                    t = re.match(r"Theorem (\w+)", lines[k])
+                    if t:
+                        detail["theorem_that_no_longer_checks"] = t.group(1)
+                        break
             if dg.get(102, "[]") != "[]":
                 pairs = re.findall(r"\((\d+),\s*(\d+)\)", dg[102])
                 detail["dangling_node_and_name"] = [(int(a), strs[int(b)] if int(b) < len(strs) else b) for a, b in pairs][:40]
@@ -82,7 +91,13 @@ def _post(ctx):
                 detail["names_where_model_deref_differs_from_Dialect_ref"] = names(dg[104])[:40]
             if dg.get(105, "[]") != "[]":
                 detail["reachable_nodes_without_rank(left-corner cycle)"] = dg[105]
-            R.violation("translator-obligation", dict(what="which obligation of %s failed" % fname, **detail), False)
+            merged = False
+            for (_kind, vd, _c) in R.violations:
+                if isinstance(vd, dict) and vd.get("file") == "coq/gen/" + fname:
+                    vd.update(detail)
+                    merged = True
+            if not merged:
+                R.violation("translator-obligation", dict(what="which obligation of %s failed" % fname, **detail), False)
     stats = [r["v"] for r in recs if r.get("t") == "stat" and isinstance(r.get("v"), dict) and "dialect" in r["v"]]
     n_nodes = sum(s["nodes"] for s in stats)
     n_reach = sum(s["reachable"] for s in stats)
